@@ -61,6 +61,9 @@ func (r *Report) Rule(id, primitive, statement string, floor int) {
 }
 
 func (r *Report) add(o Obligation) {
+	if o.Pos == "" {
+		o.Pos = "-"
+	}
 	// make constructs unique per rule by ordinal suffix
 	k := o.Key()
 	r.keys[k]++
